@@ -470,6 +470,19 @@ class Evaluator:
         self.emit('raise', st, s, exc=exc, reraise=s.exc is None)
         return False
 
+    def handler_types(self, t, st):
+        """the exception names an `except` clause lists: a tuple display, or a module-level name bound to one, is spelled out"""
+        if t is None:
+            return None
+        if isinstance(t, ast.Tuple):
+            return [self.exc_name(e_, st) for e_ in t.elts]
+        if isinstance(t, ast.Name) and t.id not in st.env:
+            mi = self.frames[-1].module
+            c_ = mi.constants.get(t.id)
+            if isinstance(c_, ast.Tuple):
+                return [self.exc_name(e_, st) for e_ in c_.elts]
+        return self.exc_name(t, st)
+
     def exc_name(self, e, st):
         if isinstance(e, ast.Name):
             if e.id in st.env:
@@ -1541,7 +1554,8 @@ class Evaluator:
             # the body certainly raises `caught.exc`: only a matching handler continues
             FAMILY = {'KeyError': ('KeyError', 'LookupError', 'Exception', 'BaseException'), 'IndexError': ('IndexError', 'LookupError', 'Exception', 'BaseException')}
             for h in s.handlers:
-                names = [None] if h.type is None else ([self.exc_name(e, st) for e in h.type.elts] if isinstance(h.type, ast.Tuple) else [self.exc_name(h.type, st)])
+                ht_ = self.handler_types(h.type, st)
+                names = [None] if ht_ is None else (ht_ if isinstance(ht_, list) else [ht_])
                 if any(n is None or n in FAMILY.get(caught.exc, (caught.exc, 'Exception', 'BaseException')) for n in names):
                     if h.name:
                         st.env[h.name] = Term('exception', (Const(caught.exc),))
@@ -1553,10 +1567,7 @@ class Evaluator:
                 raise caught
             self.emit('raise', st, s, exc=caught.exc, reraise=False, implicit=True)
             return False
-        tev = self.emit('try', st, s, body_events=(mark, len(self.events)),
-                        handlers=[self.exc_name(h.type, st) if h.type is not None and not isinstance(h.type, ast.Tuple)
-                                  else ([self.exc_name(e, st) for e in h.type.elts] if h.type is not None else None)
-                                  for h in s.handlers])
+        tev = self.emit('try', st, s, body_events=(mark, len(self.events)), handlers=[self.handler_types(h.type, st) for h in s.handlers])
         falls = []
         for h in s.handlers:
             hs = st.clone()
@@ -1908,6 +1919,8 @@ class Evaluator:
             return Term('T', (base,), kind=getattr(base, 'kind', 'unknown'))
         if isinstance(base, Tup) and attr in ('index', 'count'):
             return Fn('builtin', f"method.{attr}", self_val=base)
+        if isinstance(base, Term) and base.head == 'lib:os.path.join' and attr in PATH_METHODS:
+            return Fn('builtin', f"method.{attr}", self_val=base)       # a pathlib.Path (kept as the os.path.join term of its parts)
         return Term('attr', (base, Const(attr)))
 
     def eval_Tuple(self, e, st):
@@ -2119,6 +2132,8 @@ class Evaluator:
             return Tup(a.items + b.items, a.kind)
         if isinstance(op, ast.Div) and isinstance(a, Term) and a.kind == 'path':
             return Term('pathjoin', (a, b), kind='path')
+        if isinstance(op, ast.Div) and isinstance(a, Term) and a.head == 'lib:os.path.join' and (isinstance(b, (Const, Term)) and not isinstance(b, Num)):
+            return self.call_lib('os.path.join', [a, b], {}, None, st, node)      # Path / part
         if isinstance(a, Const) and isinstance(a.v, str) or isinstance(b, Const) and isinstance(b.v, str):
             if isinstance(op, ast.Add) and isinstance(a, Const) and isinstance(b, Const) and isinstance(a.v, str) and isinstance(b.v, str):
                 return Const(a.v + b.v)
@@ -2844,6 +2859,24 @@ class Evaluator:
                         return Tup([Const(x_) for x_ in out_], 'list' if isinstance(out_, list) else 'tuple')
                 except Exception:
                     pass
+            if isinstance(recv, Term) and recv.head == 'lib:os.path.join' and meth in PATH_METHODS and star_kw is None:
+                # pathlib spellings of the os / builtins calls the rules are phrased in
+                if meth == 'exists' and not pos and not kw:
+                    return self.call_lib('os.path.exists', [recv], {}, None, st, node)
+                if meth == 'is_file' and not pos and not kw:
+                    return self.call_lib('os.path.isfile', [recv], {}, None, st, node)
+                if meth == 'open':
+                    return self.call_lib('builtins.open', [recv] + list(pos), dict(kw), None, st, node)
+                if meth == 'mkdir' and not pos:
+                    parents = kw.get('parents')
+                    if isinstance(parents, Const) and parents.v is True:
+                        return self.call_lib('os.makedirs', [recv], {k_: v_ for k_, v_ in kw.items() if k_ != 'parents'}, None, st, node)
+                    if parents is None:
+                        return self.call_lib('os.mkdir', [recv], dict(kw), None, st, node)
+                if meth == 'unlink' and not pos:
+                    return self.call_lib('os.remove', [recv], {}, None, st, node)
+                if meth in ('rename', 'replace') and len(pos) == 1 and not kw:
+                    return self.call_lib('os.' + meth, [recv, pos[0]], {}, None, st, node)
             h = METHOD_HANDLERS.get(meth)
             if h is None and meth in MIRRORED_METHODS and ((isinstance(recv, Num) and recv.length is not None) or getattr(recv, 'kind', '') in ('ndarray', 'ndarray2d')):
                 # a.m(...) of an array is numpy.m(a, ...): one canonical form for both spellings
@@ -3196,6 +3229,22 @@ def h_binary(opname):
             return None
         return ev.binop(op, pos[0], pos[1], st, node)
     return h
+
+
+PATH_METHODS = ('exists', 'is_file', 'open', 'mkdir', 'unlink', 'rename', 'replace')
+
+
+def h_path(ev, pos, kw, st, node):
+    """pathlib.Path(a, b, ...) names the same file as os.path.join(a, b, ...): kept as that (left-nested) term, so that path rules phrased for
+    os.path see the pathlib spelling too; Path(p) of one part is p"""
+    if kw or not pos or any(isinstance(p_, Num) for p_ in pos):
+        return None
+    cur = pos[0]
+    if len(pos) == 1:
+        return cur if isinstance(cur, Term) and cur.head == 'lib:os.path.join' else None
+    for part in pos[1:]:
+        cur = ev.call_lib('os.path.join', [cur, part], {}, None, st, node)
+    return cur
 
 
 def h_square(ev, pos, kw, st, node):
@@ -3666,6 +3715,7 @@ LIB_HANDLERS = {
     'numpy.ascontiguousarray': h_asarray, 'numpy.atleast_1d': h_asarray,
     'numpy.copy': h_asarray, 'numpy.append': h_append, 'numpy.concatenate': h_concatenate, 'numpy.insert': h_insert, 'numpy.hstack': h_concatenate,
     'numpy.add': h_binary('add'), 'numpy.subtract': h_binary('subtract'), 'numpy.multiply': h_binary('multiply'),
+    'pathlib.Path': h_path, 'pathlib.PurePath': h_path,
     'operator.index': (lambda ev, pos, kw, st, node: pos[0] if len(pos) == 1 and not kw and isinstance(pos[0], Num) and pos[0].length is None else None),   # an integer as it is
     'types.MappingProxyType': (lambda ev, pos, kw, st, node: pos[0] if len(pos) == 1 and not kw and isinstance(pos[0], (Kw, Tup)) else None),   # read-only view
     'numpy.divide': h_binary('divide'), 'numpy.true_divide': h_binary('true_divide'), 'numpy.square': h_square, 'numpy.negative': h_negative,
